@@ -41,10 +41,98 @@ def still(p, strat):
     return bool(diff(r, strat))
 
 
+def drawable(en, shape, trial_count, lo, cap=60000):
+    """How many distinct `Components` triples `random_components(shape, trial_count, lo)` can
+    return (computed from the enumerator's own shapes and `jth_permutation_indices`), or None
+    when that needs more than `cap` permutation lookups."""
+    q = len(en._crossing_instances)
+    ind = 1
+    for x in shape.independent_shapes:
+        ind *= x
+    if trial_count == q and en._crossing_is_unweighted:
+        n = shape.crossings_shape
+        for x in shape.combinations_shapes:
+            n *= x
+        return n * ind
+    if shape.crossings_shape > cap:
+        return None
+    total = 0
+    for pi in range(shape.crossings_shape):
+        perm = en.jth_permutation_indices(q, en.crossing_size if lo == 0 else lo, pi,
+                                          en._pmemo if lo == 0 else en._leftover_pmemo)
+        n = 1
+        for p_ in perm:
+            n *= shape.combinations_shapes[p_]
+        total += n
+    return total * ind
+
+
+def stops(program):
+    """The exhausting loop of RandomGen.__sample ends (with probability 1) iff the number of
+    distinct keys its draws can produce equals the `possible_keys` it waits for: it leaves the
+    loop only when `len(used_keys) == possible_keys` or enough samples were accepted.
+    -> None (not decidable here) | (True, n, n) | (False, drawable, possible_keys)"""
+    import random_corr
+    b = ir.build(program)
+    blk = ir.main_block(b, program)
+    if blk is None:
+        return None
+    with ir.quiet():
+        if blk.show_errors():
+            return None
+    r = random_corr.real_enumerator(blk, limit=20)
+    if r[0] != "ok":
+        return None
+    en = r[1]
+    if en.solution_count() == 0:
+        return None
+    T, rounds, leftover = random_corr.real_geometry(blk, en)
+    possible = en.preamble_solution_count() * pow(en.solution_count(), rounds) * en.leftover_solution_count()
+    with ir.quiet():
+        per_round = drawable(en, en._components_shape, en.crossing_size, 0)
+        per_left = drawable(en, en._leftover_components_shape, leftover, leftover) if leftover > 0 else 1
+    if per_round is None or per_left is None:
+        return None
+    can = en.preamble_solution_count() * pow(per_round, rounds) * per_left
+    return (can == possible, can, possible)
+
+
+def never_stops(program):
+    try:
+        r = stops(program)
+    except Exception:  # noqa
+        return False
+    return r is not None and not r[0]
+
+
+def hangs(p, strat, n):
+    out = ir.synthesize_isolated(p, n, strat, timeout=20)
+    return out[0] == "crash" and out[1] == "timeout"
+
+
 def run(ctx, res):
     batch = _design.load(ctx, res)
     for r in _design.analysed(batch):
         _design.count(res, r)
+        rr = r["real"].get(STRAT)
+        # "and then stops": decided on the real enumerator without waiting for the loop
+        try:
+            st = stops(r["program"]) if rr else None
+        except Exception as e:  # noqa
+            st = None
+            res.extra.setdefault("termination_undecided_errors", []).append(repr(e)[:80])
+        if st is not None:
+            res.layer("termination-" + STRAT, st[0])
+            if not st[0]:
+                _design.sample_case(res, r)
+                _design.report(res, "nonterminating:%s" % STRAT, r, never_stops,
+                               "%s can draw %d distinct keys but waits for %d before it stops: an exhausting request never returns" % (
+                                   STRAT, st[1], st[2]))
+                continue
+        if rr and rr["status"] == "error" and rr.get("exc") == "Timeout":
+            # slow is not wrong: the loop provably ends (above) or could not be decided; counted, not reported
+            res.extra["timeouts_inconclusive"] = res.extra.get("timeouts_inconclusive", 0) + 1
+            continue
         d = diff(r, STRAT)
         if d is None:
             continue
@@ -58,4 +146,4 @@ def run(ctx, res):
 
 
 def replay(ctx, data):
-    return still(data["program"], STRAT)
+    return never_stops(data["program"]) or still(data["program"], STRAT)
